@@ -1,4 +1,5 @@
-(** Segmentation independence of the HTTP CONNECT model, for runs that avoid the three defective paths.
+(** Segmentation independence of the HTTP CONNECT model (for runs in which the hand-over fits the caller's buffer;
+    HttpSmallProofs.v removes that proviso for streams of at most UPCAP bytes).
     Stage A: every definite decision of the reply parser (consume n bytes / error) persists when the ring holds
     more bytes that extend the same content (prefix stability). *)
 From Coq Require Import ZArith List Bool Lia.
